@@ -1,6 +1,6 @@
 // V-ssample prelude (C15 / C09): `XSequence::sample` (src/builtin/sequence.rs) from the test `k == 0` to the
 // pre-flight allocation check, and the pre-flight statements of the natives `sample` of discrete / continuous
-// distributions and `custom_distribution`.  Decided: the arithmetic that chooses between the pool and the pick
+// distributions and `custom_distribution`, and of `multinom` (src/builtin/int.rs).  Decided: the arithmetic that chooses between the pool and the pick
 // method cannot overflow for any k <= len, and before either method collects anything `can_allocate` has covered
 // one word per element it will hold (the whole sequence for the pool, k indices otherwise; the request saturates
 // instead of overflowing).  The methods themselves (rand's partial_shuffle / sample_iter, itertools' unique) are
@@ -59,6 +59,11 @@ pub fn sample_rest(use_pool: bool, len: usize, k: usize, st: &mut Ghost<Prefligh
 pub fn build_rest(n: usize, st: &mut Ghost<Preflight>) -> (r: RuntimeResult<()>)
     requires old(st)@.bytes >= words(n),
 { unimplemented!() }
+/// util/lazy_bigint.rs LazyBigint as far as its size matters here: at least one word (the real enum is 32 bytes)
+pub struct LazyBigint { pub w: [u64; 4] }
+global size_of LazyBigint == 32;
+#[verifier::external_body]
+pub fn xerr(e: Rc<ManagedXError>) -> (r: RuntimeResult<()>) { unimplemented!() }
 pub struct Perm;
 pub struct Limits;
 impl Limits {
